@@ -44,7 +44,7 @@ fn history(s: &mut Session, kind: &str, ids: &[u64], limit: u64) {
 /// sessions mixed, duplicates, stale ids, far jumps.  Oracle = the property itself: a reply is delivered iff it is
 /// of this session, not delivered before, and at most 8128 behind the highest delivered id; whatever was refused
 /// (duplicate, stale, foreign) changes nothing for the packets that follow.
-fn codec_histories(s: &mut Session, rng: &mut Rng, thorough: bool) {
+pub fn codec_histories(s: &mut Session, rng: &mut Rng, thorough: bool) {
     use crate::c02::timed;
     use crate::gen_ss::*;
     for cipher in CIPHERS {
